@@ -1,0 +1,236 @@
+//go:build verif
+
+package protocol
+
+import (
+	"net"
+	"sync"
+	"time"
+
+	"github.com/enfein/mieru/v3/pkg/appctl/appctlpb"
+	"github.com/enfein/mieru/v3/pkg/cipher"
+	"github.com/enfein/mieru/v3/pkg/common"
+)
+
+// Exports for the external verification harness (property C14). Add-only; compiled only with -tags verif.
+
+const (
+	VerifC14MaxPDU                  = maxPDU
+	VerifC14PacketOverhead          = packetOverhead
+	VerifC14PacketNonHeaderPosition = packetNonHeaderPosition
+	VerifC14StreamOverhead          = streamOverhead
+	VerifC14LowEntropyChunkLen      = lowEntropyChunkLen
+	VerifC14SegmentTreeCapacity     = segmentTreeCapacity
+
+	VerifC14OpenSessionRequest           = int(openSessionRequest)
+	VerifC14OpenSessionResponse          = int(openSessionResponse)
+	VerifC14CloseSessionRequest          = int(closeSessionRequest)
+	VerifC14CloseSessionResponse         = int(closeSessionResponse)
+	VerifC14DataClientToServer           = int(dataClientToServer)
+	VerifC14DataServerToClient           = int(dataServerToClient)
+	VerifC14AckClientToServer            = int(ackClientToServer)
+	VerifC14AckServerToClient            = int(ackServerToClient)
+	VerifC14DataClientToServerLowEntropy = int(dataClientToServerLowEntropy)
+	VerifC14DataServerToClientLowEntropy = int(dataServerToClientLowEntropy)
+)
+
+// VerifC14MaxFragmentSize exposes maxFragmentSize.
+func VerifC14MaxFragmentSize(mtu int, transport common.TransportProtocol, mode int32) (int, error) {
+	return maxFragmentSize(mtu, transport, appctlpb.LowEntropyMode(mode))
+}
+
+// VerifC14MaxPaddingSize exposes maxPaddingSize.
+func VerifC14MaxPaddingSize(mtu int, transport common.TransportProtocol, fragmentSize int, existingPaddingSize int) int {
+	return maxPaddingSize(mtu, transport, fragmentSize, existingPaddingSize)
+}
+
+// VerifC14MaxPaddingSizeTP exposes maxPaddingSizeWithTrafficPattern (position 0 = middle, 1 = end).
+func VerifC14MaxPaddingSizeTP(mtu int, transport common.TransportProtocol, fragmentSize int, existingPaddingSize int, tp *appctlpb.TrafficPattern, position int) int {
+	return maxPaddingSizeWithTrafficPattern(mtu, transport, fragmentSize, existingPaddingSize, tp, paddingPosition(position))
+}
+
+// VerifC14LowEntropyEncodedPayloadLen exposes lowEntropyEncodedPayloadLen.
+func VerifC14LowEntropyEncodedPayloadLen(extractedPayloadLen int, mode int32) (uint16, error) {
+	return lowEntropyEncodedPayloadLen(extractedPayloadLen, appctlpb.LowEntropyMode(mode))
+}
+
+// VerifC14SourceBytesPerChunk exposes buildLowEntropyParams(mode).sourceBytesPerChunk.
+func VerifC14SourceBytesPerChunk(mode int32) (int, error) {
+	p, err := buildLowEntropyParams(appctlpb.LowEntropyMode(mode))
+	return p.sourceBytesPerChunk, err
+}
+
+// VerifC14Seg is one segment as the session queued it (the unexported *segment travels along
+// so that the very same object can be handed to PacketUnderlay.writeOneSegment).
+type VerifC14Seg struct {
+	Protocol   int    // protocolType
+	Fragment   int    // dataAckStruct.fragment (0 for session segments)
+	PayloadLen int    // metadata payloadLen field
+	Extracted  int    // dataAckStruct.extractedPayloadLen
+	LEMode     int    // dataAckStruct.lowEntropyMode
+	Seq        uint32 // sequence number
+	Payload    []byte // plaintext payload held by the segment
+	seg        *segment
+}
+
+func verifC14Describe(seg *segment) VerifC14Seg {
+	d := VerifC14Seg{Protocol: int(seg.metadata.Protocol()), Payload: seg.payload, seg: seg}
+	if ss, ok := toSessionStruct(seg.metadata); ok {
+		d.PayloadLen = int(ss.payloadLen)
+		d.Seq = ss.seq
+	} else if das, ok := toDataAckStruct(seg.metadata); ok {
+		d.Fragment = int(das.fragment)
+		d.PayloadLen = int(das.payloadLen)
+		d.Extracted = int(das.extractedPayloadLen)
+		d.LEMode = int(das.lowEntropyMode)
+		d.Seq = das.seq
+	}
+	return d
+}
+
+// VerifC14Session is a bare session (no underlay, no goroutines of its own) in state
+// "attached" on which the real Session.Write can be driven.
+type VerifC14Session struct {
+	s    *Session
+	mu   sync.Mutex
+	segs []VerifC14Seg
+}
+
+// VerifC14NewSession builds a session the way an underlay's AddSession leaves it, minus the
+// input/output loops. clientUsedLowEntropy sets the server-side flag clientUseLowEntropy.
+func VerifC14NewSession(isClient bool, transport common.TransportProtocol, mtu int, tp *appctlpb.TrafficPattern, clientUsedLowEntropy bool) *VerifC14Session {
+	s := NewSession(7, isClient, mtu, nil, tp)
+	s.transportProtocol = transport
+	s.forwardStateTo(sessionAttached)
+	s.clientUseLowEntropy.Store(clientUsedLowEntropy)
+	return &VerifC14Session{s: s}
+}
+
+func (v *VerifC14Session) drain() {
+	for {
+		seg, ok := v.s.sendQueue.DeleteMin()
+		if !ok {
+			return
+		}
+		v.mu.Lock()
+		v.segs = append(v.segs, verifC14Describe(seg))
+		v.mu.Unlock()
+	}
+}
+
+// Write calls the real Session.Write(b). Because writeChunk waits until the send queue
+// moves, a helper goroutine plays the output loop's part of taking segments out of the send
+// queue (in sequence order) while Write runs. Returns what Write returned and the segments
+// it queued, in queue (= sequence) order.
+func (v *VerifC14Session) Write(b []byte) (n int, err error, segs []VerifC14Seg) {
+	v.mu.Lock()
+	v.segs = nil
+	v.mu.Unlock()
+	stop := make(chan struct{})
+	done := make(chan struct{})
+	go func() {
+		defer close(done)
+		for {
+			v.drain()
+			select {
+			case <-stop:
+				v.drain()
+				return
+			default:
+				time.Sleep(20 * time.Microsecond)
+			}
+		}
+	}()
+	n, err = v.s.Write(b)
+	close(stop)
+	<-done
+	v.mu.Lock()
+	segs = v.segs
+	v.mu.Unlock()
+	return
+}
+
+// VerifC14SessionSegment builds a session-control segment the way session.go builds its
+// open session response, close session request and close session response (no payload).
+func VerifC14SessionSegment(protocol int, transport common.TransportProtocol) VerifC14Seg {
+	seg := &segment{
+		metadata: &sessionStruct{
+			baseStruct: baseStruct{protocol: uint8(protocol)},
+			sessionID:  7,
+			seq:        1,
+			statusCode: uint8(statusOK),
+			payloadLen: 0,
+		},
+		transport: transport,
+	}
+	return verifC14Describe(seg)
+}
+
+// VerifC14AckSegment builds an ack segment the way runOutputOncePacket does.
+func VerifC14AckSegment(isClient bool, transport common.TransportProtocol) VerifC14Seg {
+	bs := baseStruct{}
+	if isClient {
+		bs.protocol = uint8(ackClientToServer)
+	} else {
+		bs.protocol = uint8(ackServerToClient)
+	}
+	seg := &segment{
+		metadata: &dataAckStruct{
+			baseStruct: bs,
+			sessionID:  7,
+			seq:        1,
+			unAckSeq:   1,
+			windowSize: 16,
+		},
+		transport: transport,
+	}
+	return verifC14Describe(seg)
+}
+
+type verifC14Conn struct {
+	out [][]byte
+}
+
+type verifC14Addr struct{}
+
+func (verifC14Addr) Network() string { return "udp" }
+func (verifC14Addr) String() string  { return "192.0.2.1:9" }
+
+func (c *verifC14Conn) ReadFrom(p []byte) (int, net.Addr, error) { select {} }
+func (c *verifC14Conn) WriteTo(p []byte, addr net.Addr) (int, error) {
+	c.out = append(c.out, append([]byte(nil), p...))
+	return len(p), nil
+}
+func (c *verifC14Conn) Close() error                       { return nil }
+func (c *verifC14Conn) LocalAddr() net.Addr                { return verifC14Addr{} }
+func (c *verifC14Conn) SetDeadline(t time.Time) error      { return nil }
+func (c *verifC14Conn) SetReadDeadline(t time.Time) error  { return nil }
+func (c *verifC14Conn) SetWriteDeadline(t time.Time) error { return nil }
+
+// VerifC14PacketSerializer owns a PacketUnderlay whose connection records what is written to it.
+type VerifC14PacketSerializer struct {
+	u *PacketUnderlay
+	c *verifC14Conn
+}
+
+// VerifC14NewPacketSerializer builds a client-side PacketUnderlay (block cipher given) over a recording connection.
+func VerifC14NewPacketSerializer(mtu int, tp *appctlpb.TrafficPattern, block cipher.BlockCipher) *VerifC14PacketSerializer {
+	c := &verifC14Conn{}
+	u := &PacketUnderlay{
+		baseUnderlay: *newBaseUnderlay(true, mtu, tp),
+		conn:         c,
+		serverAddr:   verifC14Addr{},
+		block:        block,
+	}
+	return &VerifC14PacketSerializer{u: u, c: c}
+}
+
+// Serialize hands the segment to the real PacketUnderlay.writeOneSegment and returns the
+// datagrams it wrote to the connection (one on success).
+func (p *VerifC14PacketSerializer) Serialize(d VerifC14Seg) ([][]byte, error) {
+	p.c.out = p.c.out[:0]
+	err := p.u.writeOneSegment(d.seg, verifC14Addr{})
+	out := make([][]byte, len(p.c.out))
+	copy(out, p.c.out)
+	return out, err
+}
